@@ -181,6 +181,10 @@ class ParseContext:
   def import_manager(self):
     return self._import_manager
 
+  @property
+  def dynamic_registration(self):
+    return self._dynamic_registration
+
   def _enable_dynamic_registration(self):
     self._dynamic_registration = True
     self._symbol_table['gin'] = _GinBuiltins()
@@ -884,12 +888,14 @@ def _validate_skip_unknown(skip_unknown):
 def _should_skip(selector, skip_unknown):
   """Checks whether `selector` should be skipped (if unknown)."""
   _validate_skip_unknown(skip_unknown)
-  if _REGISTRY.matching_selectors(selector):
+  parse_context = _parse_context()
+  if parse_context.dynamic_registration:
+    # With dynamic registration a name is known iff the file's own imports
+    # provide it, whatever other files have registered before.
+    if parse_context.resolves(selector):
+      return False
+  elif _REGISTRY.matching_selectors(selector):
     return False  # Never skip known configurables.
-  if skip_unknown and _parse_context().resolves(selector):
-    # With dynamic registration, a name provided by the file's imports is known
-    # even if nothing has registered it yet.
-    return False
   if isinstance(skip_unknown, (list, tuple, set)):
     return selector in skip_unknown
   return skip_unknown  # Must be a bool by validation check.
